@@ -89,6 +89,10 @@ func badField(rng *rand.Rand, class string, col int, old string) (string, bool) 
 				return "0x" + old[2:], true
 			}
 		}
+		if col == 0 && rng.Intn(2) == 0 {
+			// a first field that makes the whole line look like something else to a lenient CSV reader (comment markers)
+			return pick("#1", "#", "#"+old, "# "+old, ";"+old, "//"+old), true
+		}
 		return pick(nonNumeric...), true
 	case "out-of-range":
 		switch columns[col] {
